@@ -30,6 +30,29 @@ def reach_ambient(facts, seeds):
     return seen, hits
 
 
+def _arith_sig(fl, b, op, depth=0):
+    """structural signature of an integer expression over parameters and constants (casts, shifts, arithmetic)"""
+    if op[0] == "k":
+        return ("const", op[4] if op[4] is not None else op[2])
+    l = op[1][0]
+    if 1 <= l <= b.argc:
+        return ("param", l)
+    ds = fl.defs_of.get(l, [])
+    if len(ds) != 1 or depth > 12:
+        return ("local", l)
+    _, bb, j = fl.defs[ds[0]]
+    if bb < 0 or j is None:
+        return ("opaque", bb)
+    rv = b.stmts(bb)[j][2]
+    if rv[0] == "use":
+        return _arith_sig(fl, b, rv[1], depth + 1)
+    if rv[0] == "cast":
+        return ("cast", rv[3], _arith_sig(fl, b, rv[2], depth + 1))
+    if rv[0] == "bin":
+        return ("bin", rv[1], _arith_sig(fl, b, rv[2], depth + 1), _arith_sig(fl, b, rv[3], depth + 1))
+    return ("opaque", bb, j)
+
+
 def run(facts, rep, tier):
     rep.rule("C15.P", "the PRF is stateless: Prf has no field besides the AES key schedule; output_value/output_permutation only "
                       "read self; the PrfSession they use is created in the same call from the counter argument only")
@@ -75,6 +98,22 @@ def run(facts, rep, tier):
             rep.ob("C15.P", "%s|session-from-counter" % n, ors == {("param", 2, ())},
                    "PrfSession::new receives the counter argument (%s)" % sorted(map(str, ors)), b.loc(nb))
         # the session does not escape into the result or a field: result origins must not be the session itself
+    # sibling agreement: both output functions derive the session position from the counter in the same way
+    from .C09 import expr_sig
+    sigs = {}
+    for n in outs:
+        b = facts.bodies[n]
+        fl = Flow(facts, b)
+        for nb, t in b.calls():
+            if callee_name(t) == "random::PrfSession::new":
+                sigs[n] = _arith_sig(fl, b, t["args"][0])
+    if len(sigs) == 2:
+        a, c = list(sigs.values())
+        rep.ob("C15.P", "siblings|session-position", a == c,
+               "output_value and output_permutation pass the counter to PrfSession::new in the same form (%s)" % str(a)[:80]
+               if a == c else
+               "output_value and output_permutation derive the stream position differently (%s vs %s): streams of different "
+               "counters / output kinds can overlap" % (str(a)[:80], str(c)[:80]))
     sn = facts.body("random::PrfSession::new")
     if rep.anchor("C15.P", "random::PrfSession::new", sn):
         fl = Flow(facts, sn)
